@@ -1,6 +1,6 @@
 SPECIFICATION Spec
 CONSTANTS
-  Reqs = {2, 3, 4, 5, 6, 7, 8, 9}
+  Reqs = {1, 2, 3, 4, 5, 6, 7, 8, 9}
   Factors = {1, 2, 3}
   Depth = 8
   Emit = TRUE
